@@ -17,7 +17,8 @@ before `ast2ast`), on top of the fixed-width expression semantics `QV.Sem.semW`.
 * `elif` / an `if` nested anywhere: the inner test is evaluated where python evaluates it (after the
   statements before it) and pushed on the stack.
 * `for v in <literal range / tuple / list of constants>` iterates: `v` is assigned each value in turn and the
-  body runs in the environment so extended (no substitution).
+  body runs in the environment so extended (no substitution); the `else` suite runs once after the last
+  iteration (the subset has no `break`).
 * assignment = environment update; augmented assignment `t op= e` = `t = t op e`; an expression statement
   does nothing; the first `return` at the top level gives the value, filled / cropped to the declared type
   (`Sem.coerceRet`).
@@ -102,16 +103,18 @@ def exec (gs : List (SVal × Bool)) (σ : SEnv) : SStmt → Option SEnv
       | some σ1 => execList (gs ++ [(g, false)]) σ1 e
       | none => none
     | none => none
-  | .for_ (.name v) it b [] =>
+  | .for_ (.name v) it b e =>
     match staticVals it with
     | some vals =>
-      vals.foldlM (fun σ val =>
+      match vals.foldlM (fun σ val =>
         match semW σ (toP val) with
         | some x =>
           match assignG gs σ v x with
           | some σ1 => execList gs σ1 b
           | none => none
-        | none => none) σ
+        | none => none) σ with
+      | some σ1 => execList gs σ1 e     -- no `break` in the subset: the else suite runs once, after the last iteration
+      | none => none
     | none => none
   | _ => none
 def execList (gs : List (SVal × Bool)) (σ : SEnv) : List SStmt → Option SEnv
@@ -228,12 +231,12 @@ mutual
 to user variables; `if` / `elif` / `else` of such statements nested to any depth **through the else
 branches** (an `if` inside the body of an `if` is rewritten into a list that reads `_iftargN` before it is
 defined: the translator refuses it), without loops inside; `for v in <closedIter>` over such statements, loops
-and `if`s nested inside to any depth, without `else` -/
+and `if`s nested inside to any depth, with or without an `else` suite of such statements -/
 def okS : SStmt → Bool
   | .assign [.name t] e => userName t && plainE e
   | .aug (.name t) op e => userName t && plainE (.bin op (.name t) e)
   | .ifs c b e => plainE c && okSs b && !hasIfs b && okSs e && !hasFors b && !hasFors e
-  | .for_ (.name v) it b [] => userName v && closedIter it && okSs b
+  | .for_ (.name v) it b e => userName v && closedIter it && okSs b && okSs e
   | _ => false
 def okSs : List SStmt → Bool
   | [] => true
